@@ -298,7 +298,7 @@ PROPS["C07"] = {
     "rule": "exhaustive over widths 1..64 x {input, bidirectional} signal; per width one row per boundary value (27 fixed 64-bit boundary "
             "values + seeded random i64) on the input path, the expected path and a 64-bit virtual signal, plus a Z/X row; "
             "non-trivial = at least 2 rows; distinct = hash of the projected trace",
-    "proved": "mask_value bits n = to_i64 (n mod 2^bits) for all 1<=bits<=64 and all i64 n; identity at >=64; result is an i64; idempotent",
+    "proved": "run level (WidthProof): every numeric input entry of every row of every run, and of every vector handed to the driver, is the reduced value of the cell in the column of that name (so it fits the width) or the declared default passed on verbatim; every numeric expected value fits its width; mask_value bits n = to_i64 (n mod 2^bits) for all 1<=bits<=64 and all i64 n; identity at >=64; result is an i64; idempotent",
     "validated_only": "that src/data_row_iterator.rs bit_mask / the two mask sites compute I64.mask_value (exhaustive width sweep)",
     "assumptions": ["the model's mask_value is what the crate computes (checked by the exhaustive sweep of this run)"],
     "trusted_base": [],
